@@ -2,8 +2,8 @@ SPECIFICATION Spec
 CONSTANTS
   SR = 2
   SL = 4
-  MaxResets = 2
+  MaxResets = 1
   MaxCopies = 1
-  Bug = "reset_keeps_cache"
-INVARIANTS LawResetClears
+  Bug = "copy_drops_hidden_state"
+PROPERTY LawCopyKeeps
 CHECK_DEADLOCK FALSE
